@@ -78,6 +78,19 @@ func matrixRows(shas func(src string) string) []row {
 	add("sethook-ex", nil, []string{"SETHOOK", "mh:sethook-ex", sinkURL("x") + "," + sinkURL("y"), "EX", "5000", "WITHIN", k("sethook-ex"), "WHERE", "f", "1", "2", "FENCE", "BOUNDS", "0", "0", "1", "1"})
 	add("sethook-replace", [][]string{{"SETHOOK", "mh:sethook-replace", sinkURL("x"), "NEARBY", k("sethook-replace"), "FENCE", "POINT", "33", "-112", "500"}},
 		[]string{"SETHOOK", "mh:sethook-replace", sinkURL("z"), "INTERSECTS", k("sethook-replace"), "FENCE", "DETECT", "cross", "BOUNDS", "5", "5", "6", "6"})
+	// the same hook / channel set again with only its lifetime added, removed or changed
+	hk := func(name, key string, ex ...string) []string {
+		return append(append([]string{"SETHOOK", name, sinkURL("x")}, ex...), "NEARBY", key, "FENCE", "POINT", "33", "-112", "500")
+	}
+	ch := func(name, key string, ex ...string) []string {
+		return append(append([]string{"SETCHAN", name}, ex...), "NEARBY", key, "FENCE", "POINT", "33", "-112", "500")
+	}
+	add("sethook-add-ex", [][]string{hk("mh:add-ex", k("sethook-add-ex"))}, hk("mh:add-ex", k("sethook-add-ex"), "EX", "3000"))
+	add("sethook-remove-ex", [][]string{hk("mh:remove-ex", k("sethook-remove-ex"), "EX", "3000")}, hk("mh:remove-ex", k("sethook-remove-ex")))
+	add("sethook-change-ex", [][]string{hk("mh:change-ex", k("sethook-change-ex"), "EX", "300000")}, hk("mh:change-ex", k("sethook-change-ex"), "EX", "3000"))
+	add("setchan-add-ex", [][]string{ch("mc:add-ex", k("setchan-add-ex"))}, ch("mc:add-ex", k("setchan-add-ex"), "EX", "3000"))
+	add("setchan-remove-ex", [][]string{ch("mc:remove-ex", k("setchan-remove-ex"), "EX", "3000")}, ch("mc:remove-ex", k("setchan-remove-ex")))
+	add("setchan-change-ex", [][]string{ch("mc:change-ex", k("setchan-change-ex"), "EX", "300000")}, ch("mc:change-ex", k("setchan-change-ex"), "EX", "3000"))
 	add("setchan", nil, []string{"SETCHAN", "mc:setchan", "META", "m", "v", "EX", "5000", "NEARBY", k("setchan"), "MATCH", "t*", "FENCE", "ROAM", k("setchan"), "*", "300"})
 	add("delhook", [][]string{{"SETHOOK", "mh:delhook", sinkURL("x"), "NEARBY", k("delhook"), "FENCE", "POINT", "33", "-112", "500"}}, []string{"DELHOOK", "mh:delhook"})
 	add("delchan", [][]string{{"SETCHAN", "mc:delchan", "NEARBY", k("delchan"), "FENCE", "POINT", "33", "-112", "500"}}, []string{"DELCHAN", "mc:delchan"})
@@ -200,7 +213,7 @@ func matrix(ctx *core.Ctx, bin, stop string, withFlush bool) {
 		}
 	}
 	time.Sleep(900 * time.Millisecond) // short TTLs pass and are swept
-	d1, err := dump.Take(s.Addr(), dump.Opts{})
+	d1, err := dump.Take(s.Addr(), dump.Opts{HookTTLMagnitude: true})
 	if err != nil {
 		ctx.Inconclusive("matrix dump: " + err.Error())
 		return
@@ -217,7 +230,7 @@ func matrix(ctx *core.Ctx, bin, stop string, withFlush bool) {
 		return
 	}
 	defer s2.Kill9()
-	d2, err := dump.Take(s2.Addr(), dump.Opts{})
+	d2, err := dump.Take(s2.Addr(), dump.Opts{HookTTLMagnitude: true})
 	if err != nil {
 		ctx.Inconclusive("matrix dump after restart: " + err.Error())
 		return
